@@ -89,6 +89,12 @@ CLAIMS["C13"] = {
     "design_ref": "DESIGN.md section 4, C13",
     "note": "Trusted: Lean kernel + standard axioms; law and independence of the fading draws (gain statistics on 10^6 blocks recorded as support); the law cases are float evaluations of the definition (tests), the structure cases go through the exact model.",
 }
+CLAIMS["C08"] = {
+    "technique": "Lean 4 algebra over the rationals on the squared scale factor P/(c+1e-8) (upper bound, 0.1% lower bound, positivity, monotonicity, second application, per-antenna form, clamp bounds, final PAPR clip, composite = fold); correspondence comparing the output power of the real constraints with the exact model on items given as exact rationals",
+    "text": "Unbounded theorems for every current power c >= 0 and target P: the output power c.P/(c+1e-8) never exceeds P, is within 0.1% of P as soon as c >= 999e-8, the item is multiplied by a strictly positive factor (sum of squares scales by s^2 exactly), the output power is monotone in the input power, a second application stays between c1.P/(P+eps) and P; the per-antenna form never exceeds its budget; clamp bounds every sample by A and is idempotent; the final PAPR clip bounds every sample's power by 0.98.PAPR.avg; a composite is the left fold of its parts. Tie: Total / Average power constraints on six signal families x scales 1e-2..1e4 x targets 1e-2..1e3 x real/complex x shapes 1-D, batch of 1, batch of 3, 3-D, 4-D: the power of every output item must equal the model's value on the item's exact samples (rel 2e-5), the ratio output/input must be one positive real per item; per-antenna constraint on 2-D/3-D/4-D; peak amplitude exact; composite / apply_constraint_chain / combine_constraints equal sequential application; OFDM and MIMO factory composites meet their limits.",
+    "design_ref": "DESIGN.md section 4, C08",
+    "note": "Trusted: Lean kernel + standard axioms; float32 reductions to 2e-5 relative. PARTIAL: 'output PAPR <= limit on non-sparse signals' is tested on the implementation (Gaussian / uniform / OFDM-like / heavy-tailed, limits 2, 3, 6, real/complex, single and batched), not proved - only the final clip bound is a theorem.",
+}
 
 NOT_YET = {}
 
